@@ -152,6 +152,24 @@ impl PatProp for Inject {
     }
 }
 
+/// bytes -> random base pattern with 1..3 injection sites (shared by the proptest tier and the fuzz target)
+pub fn decode_injected(cfg: &RandCfg, bytes: &[u8]) -> Option<Node> {
+    let split = bytes.len() / 4;
+    let (sites, pat) = bytes.split_at(split);
+    let base = strip(&gen::decode_pattern(cfg, pat));
+    let mut d = Dec::new(sites);
+    let mut cur = base;
+    let k = 1 + d.below(3);
+    for _ in 0..k {
+        let n = count_nodes(&cur);
+        let t = d.below(n.min(255));
+        let before = d.below(2) == 0;
+        let mut c = 0;
+        cur = inject_at(&cur, t, before, &mut c);
+    }
+    Some(cur)
+}
+
 pub fn run(ctx: &RunCtx) -> Outcome {
     let p = Inject;
     let mut o = Outcome::default();
@@ -215,22 +233,7 @@ pub fn run(ctx: &RunCtx) -> Outcome {
             t
         };
         let t0 = std::time::Instant::now();
-        let (st, found) = explore_random_with(ctx, &p, "random multi-site", &rtexts, cases, &|bytes| {
-            let split = bytes.len() / 4;
-            let (sites, pat) = bytes.split_at(split);
-            let base = strip(&gen::decode_pattern(&cfg, pat));
-            let mut d = Dec::new(sites);
-            let mut cur = base;
-            let k = 1 + d.below(3);
-            for _ in 0..k {
-                let n = count_nodes(&cur);
-                let t = d.below(n.min(255));
-                let before = d.below(2) == 0;
-                let mut c = 0;
-                cur = inject_at(&cur, t, before, &mut c);
-            }
-            Some(cur)
-        });
+        let (st, found) = explore_random_with(ctx, &p, "random multi-site", &rtexts, cases, &|bytes| decode_injected(&cfg, bytes));
         o.generators.push(json!({"mode": "random(proptest bytes -> AST + 1..3 injection sites)", "cases": cases, "texts": rtexts.len(), "evaluations": st.evaluations, "seed": ctx.seed, "wall_s": t0.elapsed().as_secs_f64()}));
         let v = found.map(|f| finish(ctx, &p, f));
         o.absorb(st, v);
